@@ -21,6 +21,8 @@ def specs(tier):
          gridlab.tokamak_spec("cdn", options={"ny_inner_sol": 4, "ny_outer_sol": 6}, extract=ex),
          # a coarse FineContour extended only a little past the targets: the outermost boundary cells depend on how the extension ends
          gridlab.tokamak_spec("lsn", options={"finecontour_Nfine": 22, "finecontour_extend_prefactor": 1.5, "ny_inner_divertor": 8, "ny_outer_divertor": 10}, extract=ex)]
+    # poloidal cells smaller than the FineContour spacing (ny = 64 half-cells of 1/128 of the circumference against 100 fine points)
+    S.append(gridlab.circular_spec(options={"number_of_processors": 1, "ny": 64, "nx": 2, "R0": 1.0}, extract=ex))
     # a grid on which no two options that could be confused coincide (see gridlab.odd_spec)
     S.append(gridlab.odd_spec("lsn", True, extract=ex))
     if tier == "thorough":
@@ -37,7 +39,7 @@ def gname(g):
     s = g["spec"]
     o = s.get("options", {})
     return "%s%s%s" % (s.get("geometry", "circular"), "" if o.get("orthogonal", True) else "-nonorth",
-                       "-Nfine%d" % o["finecontour_Nfine"] if s.get("case") == "circular" else "")
+                       "-Nfine%d-ny%s" % (o.get("finecontour_Nfine", 100), o.get("ny", "")) if s.get("case") == "circular" else "")
 
 
 def region_arrays(g, name, rid):
@@ -161,8 +163,21 @@ def oracle(res, g):
         rel = np.nanmax(np.abs(hy / r - 1.0))
         bound = (2 * math.pi) ** 2 / (24 * N ** 2) * 4
         res.extra.setdefault("circle", {})[name] = {"max_rel_hy_minus_r": float(rel), "chord_error_bound": bound}
-        if rel > bound + 1e-6:
+        if "linear" in str(g["spec"]["options"].get("poloidal_spacing_method", "")) and rel > bound + 1e-6:
             bad.append(("circle-hy", "circular grid: hy differs from the minor radius by %.3g (chord-error bound %.3g)" % (rel, bound)))
+        # any spacing: hy dy of a cell is the exact arc r * dtheta between its two y-faces (the periodic closure included)
+        Ry, Zy = v.get("Rxy_ylow"), v.get("Zxy_ylow")
+        R0c = float(g["spec"]["options"].get("R0", R0))
+        if Ry is not None and Ry.shape == hy.shape:
+            rad = np.hypot(Ry - R0c, Zy)
+            th = np.unwrap(np.arctan2(Zy, Ry - R0c), axis=1)
+            thn = np.concatenate([th[:, 1:], th[:, :1] + np.sign(th[:, 1:2] - th[:, :1]) * 2 * np.pi], axis=1)
+            arc = np.abs(0.5 * (rad + np.roll(rad, -1, axis=1)) * (thn - th))
+            with np.errstate(all="ignore"):
+                ea = np.nanmax(np.abs(hy * v["dy"] / arc - 1.0))
+            res.extra["circle"][name]["max_rel_hydy_minus_arc"] = float(ea)
+            if ea > 4 * bound + 1e-6:
+                bad.append(("circle-arc", "circular grid: hy*dy differs from the exact arc r*dtheta between the cell's y-faces by %.3g (relative; chord-error bound %.3g)" % (ea, 4 * bound)))
     for wid, msg in bad:
         res.violation(wid + ":" + ("nonorth" if "nonorth" in name else "orth"), msg + " [" + name + "]", spec)
     return not bad
